@@ -235,6 +235,7 @@ Proof.
   unfold compile_dict.
   set (es := hs_entries st) in *. set (n := Z.of_nat (List.length es)).
   destruct (forallb _ es) eqn:Ev; [|split; [discriminate|intros d Hd; discriminate]].
+  destruct (index_err F es) eqn:Ei; [split; [discriminate|intros d Hd; discriminate]|].
   destruct (existsb (indexed F) es) eqn:Ex; [|rewrite Et; split; [discriminate|intros d Hd; discriminate]].
   rewrite (no_nul_indexed F es We). split; [discriminate|].
   intros d Hd Hk Hn. inversion Hd; subst d. clear Hd.
@@ -297,6 +298,30 @@ Proof.
         -- cbn [snd] in E1. destruct (compile_dict F st) as [d0| |] eqn:Ec; try discriminate. inversion E1; subst d0.
            exact (proj2 (compile_dict_sound st I) d Ec K Hn).
       * exact (B i d E K).
+Qed.
+
+(* the arrays of the word-id table: in every history, whatever the flags of read_conn, a compile that reports success has
+   at most 127 indexed entries per surface (rows of several read_lexicon calls count together) *)
+Lemma compile_dict_index_ok : forall st d, compile_dict F st = Ok d -> index_lists_ok d = true.
+Proof.
+  intros st d H. unfold compile_dict in H.
+  destruct (forallb _ (hs_entries st)); [|discriminate]. destruct (index_err F (hs_entries st)) eqn:Ei; [discriminate|].
+  destruct (existsb (indexed F) (hs_entries st)); [|destruct (b_empty_trie_err F); discriminate].
+  destruct (existsb _ (hs_entries st)); [discriminate|]. inversion H; subst. apply (index_err_false_sound F HF). exact Ei.
+Qed.
+
+Theorem history_index_ok : forall fl fu ops st i d,
+  nth_error (run_history F fl fu st ops) i = Some (Ok (Some d)) -> index_lists_ok d = true.
+Proof.
+  intros fl fu. induction ops as [|o t IH]; intros st i d E; cbn [run_history] in E.
+  - destruct i; discriminate.
+  - destruct i as [|i]; cbn [nth_error] in E; [|exact (IH _ i d E)].
+    inversion E as [E1]. destruct o as [ls|rs| |]; cbn [step] in E1.
+    + destruct (conn_read_st F _ ls) as [[c seen] r]. cbn [snd] in E1. destruct r; discriminate.
+    + destruct (parse_records_st F rs) as [es ok]. cbn [snd] in E1. destruct ok; discriminate.
+    + discriminate.
+    + cbn [snd] in E1. destruct (compile_dict F st) as [d0| |] eqn:Ec; try discriminate. inversion E1; subst d0.
+      exact (compile_dict_index_ok st d Ec).
 Qed.
 
 End History.
